@@ -15,3 +15,5 @@ git -C $wt apply /verif/seeded/$id/patch.diff || { echo "PATCH DOES NOT APPLY"; 
 for c in $checks; do
   (cd /verif && VERIF_REPO_SRC=$wt/src /venv/bin/python -m harness.check $c quick 2>&1 | grep -v KNOWN-FINDING | tail -3 | cut -c1-400)
 done
+# the evidence files written by these runs describe a patched tree: put the committed ones back
+git -C /verif checkout -- evidence
